@@ -372,6 +372,84 @@ func checkC20(c *Check) {
 	if uh != nil {
 		ruleSuffixInverse(c, p, handler, uh, "R20.9")
 	}
+	// R20.11: what shapes the frame is configured once, from the flags
+	c.RuleDoc["R20.11"] = "every option other than the progress callback is applied in the one Apply that receives the flag-derived options (an option applied per file persists across Reset and leaks into later files)"
+	{
+		// the Apply with the most options is the configuration; every *Option constructor call of the family must
+		// feed it, except OnBlockDoneOption
+		var mainApply ssa.CallInstruction
+		most := 0
+		optsOf := func(ci ssa.CallInstruction) []ssa.Value {
+			var out []ssa.Value
+			a := ci.Common().Args
+			if len(a) < 2 {
+				return nil
+			}
+			if sl, ok := a[len(a)-1].(*ssa.Slice); ok {
+				if al, isAl := sl.X.(*ssa.Alloc); isAl && al.Referrers() != nil {
+					for _, r := range *al.Referrers() {
+						if ia, isIA := r.(*ssa.IndexAddr); isIA && ia.Referrers() != nil {
+							for _, rr := range *ia.Referrers() {
+								if st, isS := rr.(*ssa.Store); isS {
+									out = append(out, st.Val)
+								}
+							}
+						}
+					}
+				}
+			}
+			return out
+		}
+		for _, ci := range famCalls {
+			if isLz4(staticCallee(ci), "Writer.Apply") {
+				if n := len(optsOf(ci)); n > most {
+					most, mainApply = n, ci
+				}
+			}
+		}
+		inMain := map[ssa.Value]bool{}
+		if mainApply != nil {
+			for _, v := range optsOf(mainApply) {
+				inMain[v] = true
+				// a slice of options built first and passed as options...
+				walkBack(v, false, func(x ssa.Value) bool { inMain[x] = true; return true })
+			}
+			// options... passed as an existing slice: the elements stored into its backing array
+			if a := mainApply.Common().Args; len(a) >= 2 {
+				walkBack(a[len(a)-1], false, func(x ssa.Value) bool {
+					if al, isAl := x.(*ssa.Alloc); isAl && al.Referrers() != nil {
+						for _, r := range *al.Referrers() {
+							if ia, isIA := r.(*ssa.IndexAddr); isIA && ia.Referrers() != nil {
+								for _, rr := range *ia.Referrers() {
+									if st, isS := rr.(*ssa.Store); isS {
+										inMain[st.Val] = true
+									}
+								}
+							}
+						}
+					}
+					return true
+				})
+			}
+		}
+		bad := ""
+		nOpt := 0
+		for _, ci := range famCalls {
+			f := staticCallee(ci)
+			if f == nil || f.Pkg == nil || f.Pkg.Pkg.Path() != modPath || !strings.HasSuffix(f.Name(), "Option") || f.Name() == "OnBlockDoneOption" {
+				continue
+			}
+			call, isCall := ci.(*ssa.Call)
+			if !isCall {
+				continue
+			}
+			nOpt++
+			if !inMain[ssa.Value(call)] {
+				bad = f.Name() + " at " + p.InstrPos(ci)
+			}
+		}
+		c.Cond(mainApply != nil && bad == "", "R20.11", "lz4c.compress#options-applied-once", p.Pos(handler.Pos()), "every frame-shaping option is part of the single configuration Apply; per-file Apply calls carry only the progress callback", fmt.Sprintf("%d option constructor calls, all feeding the configuration Apply", nOpt), "an option outside the configuration Apply: "+bad+" - options survive Reset, so what one file sets stays in force for the files after it (for example a content size)")
+	}
 	// R20.10: the shared object is pointed at this iteration's file before it is used
 	c.RuleDoc["R20.10"] = "the shared Writer/Reader is Reset onto the file opened for this argument before the copy"
 	ruleSinkBound(c, p, handler, "Writer", "compress", "R20.10")
